@@ -23,6 +23,9 @@ def ident(rng, prefix, used):
     syl = ["Al", "Be", "Ca", "Do", "En", "Fi", "Go", "Hu", "Ix", "Jo", "Ka", "Lu", "Mo", "Ne", "Op", "Pa", "Qu", "Ro", "Si", "Tu", "X", "AB", "B2", "None"]
     while True:
         s = prefix + "".join(rng.choice(syl) for _ in range(rng.randint(0, 2))) + rng.choice(["", "", str(rng.randint(0, 9))])
+        if rng.random() < 0.06:
+            # a name that merely BEGINS like the placeholder for an absent cell (NonEmpty, NoneLeft, NoneOp): an ordinary name
+            s = rng.choice(["None", "Non", "NONE", "None"]) + rng.choice(["Empty", "Left", "Op", "Editable", "Zero"]) + rng.choice(["", str(rng.randint(0, 9))])
         if s not in used and not is_none(s) and s not in ("True", "False", "Event", "Enum") and not keyword.iskeyword(s[0].lower() + s[1:]) \
                 and (s[0].lower() + s[1:]) not in LOWER_KEYWORDS:
             used.add(s)
